@@ -22,7 +22,8 @@ Theorem C11_primary_with_pal_accepted : forall fl,
 Proof. exact primary_pal_flags. Qed.
 Print Assumptions C11_primary_with_pal_accepted.
 
-(* an explicitly passed NaN (any of the 25 numeric arguments, m and r included) is rejected by both with code 16 *)
+(* an explicitly passed NaN or +-inf (state GivenNaN; any of the 25 numeric arguments, m and r included) is rejected by both
+   with code 16 *)
 Theorem C11_nan_args_rejected : forall g, any_nan g = true -> c_decide g = Reject 16 /\ py_decide g = Reject 16.
 Proof. exact nan_rejected. Qed.
 Print Assumptions C11_nan_args_rejected.
@@ -38,7 +39,7 @@ Theorem C11_from_orbit_rejects : forall tiny G prim m a e t,
   (1 < e -> 0 < a -> from_orbit_err RNum tiny G prim m a e t = inl 3%Z) /\
   (0 <= e < 1 -> a < 0 -> from_orbit_err RNum tiny G prim m a e t = inl 4%Z) /\
   ((0 <= e < 1 /\ 0 < a) \/ (1 < e /\ a < 0) -> e * cf t < -1 -> from_orbit_err RNum tiny G prim m a e t = inl 5%Z) /\
-  ((0 <= e < 1 /\ 0 < a) \/ (1 < e /\ a < 0) -> -1 <= e * cf t -> pm prim < tiny ->
+  ((0 <= e < 1 /\ 0 < a) \/ (1 < e /\ a < 0) -> -1 <= e * cf t -> pm prim <= tiny ->
       from_orbit_err RNum tiny G prim m a e t = inl 6%Z).
 Proof. exact reject_rules. Qed.
 Print Assumptions C11_from_orbit_rejects.
@@ -46,7 +47,7 @@ Print Assumptions C11_from_orbit_rejects.
 (* an accepted orbit (bound or unbound) has radius a(1-e^2)/(1+e cos f) > 0, vis-viva energy -mu/2a,
    |h|^2 = mu a (1-e^2), h_z = |h| cos inc. *)
 Theorem C11_from_orbit_invariants : forall tiny G prim m a e t,
-  trig_ok t -> 0 < G * (m + pm prim) -> shape_ok a e -> -1 < e * cf t -> tiny <= pm prim ->
+  trig_ok t -> 0 < G * (m + pm prim) -> shape_ok a e -> -1 < e * cf t -> tiny < pm prim ->
   exists p, from_orbit_err RNum tiny G prim m a e t = inr p /\ invariants G m a e prim p t.
 Proof. exact from_orbit_invariants. Qed.
 Print Assumptions C11_from_orbit_invariants.
@@ -56,7 +57,7 @@ Print Assumptions C11_from_orbit_invariants.
    denominator of the construction is non-zero. *)
 Theorem C11_from_orbit_rejects_all_invalid : forall tiny G prim m a e t p,
   from_orbit_err RNum tiny G prim m a e t = inr p ->
-  shape_ok a e /\ -1 <= e * cf t /\ tiny <= pm prim /\
+  shape_ok a e /\ -1 <= e * cf t /\ tiny < pm prim /\
   (trig_ok t -> 0 < G * (m + pm prim) -> e * cf t <> -1 -> invariants G m a e prim p t).
 Proof.
   intros tiny G prim m a e t p H. destruct (accepted_is_valid _ _ _ _ _ _ _ _ H) as [A [B C]].
@@ -163,7 +164,7 @@ Print Assumptions C11_value_flow_same.
 (* round trip, scalar part: reading back the particle built from (a,e,inc,Omega,omega,f) returns a and e EXACTLY
    (over the reals), the distance a(1-e^2)/(1+e cos f), |h| = sqrt(mu a (1-e^2)) and cos inc = h_z/|h| ... *)
 Theorem C11_roundtrip_a_e : forall (L : libm R) (L2 : libm2 R) tiny G t0 prim m a e t p o,
-  trig_ok t -> 0 < G * (m + pm prim) -> shape_ok a e -> -1 < e * cf t -> tiny <= pm prim ->
+  trig_ok t -> 0 < G * (m + pm prim) -> shape_ok a e -> -1 < e * cf t -> tiny < pm prim ->
   from_orbit_err RNum tiny G prim m a e t = inr p ->
   orbit_from_particle_err RNum L L2 tiny G t0 p prim = inr o ->
   o_a o = a /\ o_e o = e /\ o_d o = a * (1 - e*e) / (1 + e * cf t) /\
@@ -174,7 +175,7 @@ Print Assumptions C11_roundtrip_a_e.
 
 (* ... and the inclination itself through the acos2 clamping logic, for 0 < inc < PI *)
 Theorem C11_roundtrip_inc : forall (L : libm R) (L2 : libm2 R) tiny G t0 prim m a e t p o inc,
-  trig_ok t -> 0 < G * (m + pm prim) -> shape_ok a e -> -1 < e * cf t -> tiny <= pm prim ->
+  trig_ok t -> 0 < G * (m + pm prim) -> shape_ok a e -> -1 < e * cf t -> tiny < pm prim ->
   l_acos L2 = acos -> ci t = cos inc -> 0 < inc < PI ->
   from_orbit_err RNum tiny G prim m a e t = inr p ->
   orbit_from_particle_err RNum L L2 tiny G t0 p prim = inr o ->
@@ -186,7 +187,7 @@ Print Assumptions C11_roundtrip_inc.
    branches supply exactly the values 0 and PI.  (omega and f modulo 2pi: not proved.) *)
 Theorem C11_roundtrip_Omega : forall (L : libm R) (L2 : libm2 R), l_acos L2 = acos -> l_pi L = PI ->
   forall tiny G t0 prim m a e t p o inc Om,
-  trig_ok t -> 0 < G * (m + pm prim) -> shape_ok a e -> -1 < e * cf t -> tiny <= pm prim ->
+  trig_ok t -> 0 < G * (m + pm prim) -> shape_ok a e -> -1 < e * cf t -> tiny < pm prim ->
   si t = sin inc -> 0 < inc < PI -> cO t = cos Om -> sO t = sin Om -> - PI < Om <= PI ->
   from_orbit_err RNum tiny G prim m a e t = inr p ->
   orbit_from_particle_err RNum L L2 tiny G t0 p prim = inr o ->
@@ -236,7 +237,7 @@ Print Assumptions C11_acos2_mod_2pi.
    f := (omega+f) - omega, pomega := Omega +- omega, theta := Omega +- (omega+f) (minus for inc >= pi/2). *)
 Theorem C11_roundtrip_omega_f : forall (L : libm R) (L2 : libm2 R), l_acos L2 = acos -> l_pi L = PI -> fmod_spec (l_fmod L) ->
   forall tiny G t0 prim m a e t p o inc om f,
-  trig_ok t -> 0 < G * (m + pm prim) -> shape_ok a e -> 0 < e -> -1 < e * cf t -> tiny <= pm prim ->
+  trig_ok t -> 0 < G * (m + pm prim) -> shape_ok a e -> 0 < e -> -1 < e * cf t -> tiny < pm prim ->
   ci t = cos inc -> si t = sin inc -> MIN_INC RNum <= inc <= PI - MIN_INC RNum ->
   co t = cos om -> so t = sin om -> cf t = cos f -> sf t = sin f ->
   from_orbit_err RNum tiny G prim m a e t = inr p ->
@@ -250,7 +251,7 @@ Print Assumptions C11_roundtrip_omega_f.
    anomaly E of f, modulo 2 pi; T = t0 - M/n up to whole periods *)
 Theorem C11_roundtrip_M_T : forall (L : libm R) (L2 : libm2 R), l_acos L2 = acos -> l_pi L = PI -> fmod_spec (l_fmod L) ->
   forall tiny G t0 prim m a e t p o f E,
-  trig_ok t -> 0 < G * (m + pm prim) -> 0 < e < 1 -> 0 < a -> -1 < e * cf t -> tiny <= pm prim ->
+  trig_ok t -> 0 < G * (m + pm prim) -> 0 < e < 1 -> 0 < a -> -1 < e * cf t -> tiny < pm prim ->
   cf t = cos f -> sf t = sin f ->
   cos E = (e + cos f) / (1 + e * cos f) -> sin E = R_sqrt.sqrt (1 - e*e) * sin f / (1 + e * cos f) ->
   from_orbit_err RNum tiny G prim m a e t = inr p ->
@@ -266,7 +267,7 @@ Print Assumptions C11_roundtrip_M_T.
    only hypothesis (this supersedes the conditional C11_T_roundtrip_mod_period) *)
 Theorem C11_roundtrip_T : forall (L : libm R) (L2 : libm2 R), l_acos L2 = acos -> l_pi L = PI -> fmod_spec (l_fmod L) ->
   forall tiny G t0 prim m a e t p o f E Tin (j : Z),
-  trig_ok t -> 0 < G * (m + pm prim) -> 0 < e < 1 -> 0 < a -> -1 < e * cf t -> tiny <= pm prim ->
+  trig_ok t -> 0 < G * (m + pm prim) -> 0 < e < 1 -> 0 < a -> -1 < e * cf t -> tiny < pm prim ->
   cf t = cos f -> sf t = sin f -> l_sin L = sin ->
   cos E = (e + cos f) / (1 + e * cos f) -> sin E = R_sqrt.sqrt (1 - e*e) * sin f / (1 + e * cos f) ->
   E - e * sin E = R_sqrt.sqrt (G * (m + pm prim) / (a*a*a)) * (t0 - Tin) + IZR j * (2 * PI) ->
@@ -337,7 +338,7 @@ Print Assumptions C11_hyperbolic_rejection_and_asymptote.
 
 (* unbound orbits: n = -sqrt(mu/|a|^3) and T is read back exactly as t0 - (e sinh H - H)/|n|, H the hyperbolic anomaly of f *)
 Theorem C11_roundtrip_T_hyperbolic : forall (L : libm R) (L2 : libm2 R) tiny G t0 prim m a e t p o f H,
-  trig_ok t -> 0 < G * (m + pm prim) -> 1 < e -> a < 0 -> -1 < e * cf t -> tiny <= pm prim ->
+  trig_ok t -> 0 < G * (m + pm prim) -> 1 < e -> a < 0 -> -1 < e * cf t -> tiny < pm prim ->
   cf t = cos f -> sf t = sin f ->
   (forall x, 0 <= x -> l_acosh L2 (cosh x) = x) -> l_sinh L = sinh ->
   cosh H = (e + cos f) / (1 + e * cos f) -> sinh H = R_sqrt.sqrt (e*e - 1) * sin f / (1 + e * cos f) ->
@@ -381,6 +382,42 @@ Theorem C11_value_flow_jacobi_masses : forall T (N : Num T) (L : libm T) cbrt po
   py_elements_jm N L pow false m0 Mint afp pe an v = py_elements N L pow afp pe an v.
 Proof. intros. split; [apply flow_jm_same; assumption | apply flow_jm_off]. Qed.
 Print Assumptions C11_value_flow_jacobi_masses.
+
+(* ---- edges of the domain ----------------------------------------------------------------------------------------
+   What the hypotheses of the theorems above exclude, and what the code does there (all of it is exercised bit for bit by
+   the binary64 correspondence corners and by the searcher's edge sweep, tools/c11_search.py edge_corners):
+   * e = 0 (C11_roundtrip_omega_f needs 0 < e): acos2(.., n*e = 0, ..) divides by zero; in binary64 the quotient is NaN and
+     acos2 returns 0, so omega := 0 / pomega := 0; only omega+f (generic branch) resp. theta (planar branch) is meaningful.
+   * inc within MIN_INC = 1e-8 of 0 or pi: the planar branch; only C11_orbit_defining_relations is proved there.
+   * e cos f = -1 exactly: C11_from_orbit_asymptote_refuted.  e = 1: rejected (code 1).  a = +-0: rejected (code 15).
+   * mu = G (m + primary.m) <= 0 (0 < mu everywhere above): G = 0 gives a particle at rest relative to the primary;
+     a negative total mass gives sqrt of a negative number, i.e. NaN velocities without an error (outside the property's
+     quantifier "masses").
+   * binary64 range (the theorems are over R): reb_orbit_from_particle_err squares distances and speeds, so beyond about
+     1e-154 / 1e154 it reports "positions are the same" / infinite elements; a subnormal a overflows mu/a; a^3 under/overflows
+     in the T -> M conversion for |a| beyond about 1e-103 / 1e102 (C: n = inf or 0, Python: ZeroDivisionError / OverflowError).
+   * non-finite arguments: NaN and +-inf are rejected by both front ends (code 16, /repo 369a765 and 30c5711).
+   * primary.m = TINY exactly: next theorem. *)
+
+(* both directions use the same comparison at the threshold TINY (= 1e-308) since /repo 0972be7: a primary of mass
+   <= TINY is rejected when creating a particle (code 6) and when reading its orbit (code 1); whatever is accepted by
+   reb_particle_from_orbit_err passes the mass test of reb_orbit_from_particle_err. *)
+Theorem C11_tiny_primary_boundary : forall (L : libm R) (L2 : libm2 R) tiny G t0 prim m a e t,
+  (shape_ok a e -> -1 <= e * cf t -> pm prim <= tiny -> from_orbit_err RNum tiny G prim m a e t = inl 6%Z) /\
+  (pm prim <= tiny -> forall p, orbit_from_particle_err RNum L L2 tiny G t0 p prim = inl 1%Z) /\
+  (forall p, from_orbit_err RNum tiny G prim m a e t = inr p ->
+     orbit_from_particle_err RNum L L2 tiny G t0 p prim <> inl 1%Z).
+Proof.
+  intros L L2 tiny G t0 prim m a e t. split; [|split].
+  - intros Hsh Hc Hpm. destruct (reject_rules tiny G prim m a e t) as [_ [_ [_ [_ [_ [_ R6]]]]]]. apply R6; assumption.
+  - intros Hpm p. unfold orbit_from_particle_err. cbn [nleb RNum]. unfold Rleb.
+    destruct (Rle_dec (pm prim) tiny); [reflexivity | contradiction].
+  - intros p Hp. destruct (accepted_is_valid _ _ _ _ _ _ _ _ Hp) as [_ [_ Hm]].
+    unfold orbit_from_particle_err. cbn [nleb RNum]. unfold Rleb.
+    destruct (Rle_dec (pm prim) tiny); [lra|]. cbv zeta.
+    match goal with |- (if ?c then _ else _) <> _ => destruct c; discriminate end.
+Qed.
+Print Assumptions C11_tiny_primary_boundary.
 
 (* Non-vacuity: a concrete inclined eccentric orbit (cos/sin pairs 3/5,4/5 etc.) meets every hypothesis. *)
 Example C11_hypotheses_inhabited :
